@@ -434,6 +434,8 @@ class Parser:
         call_node = self.parse_expression()
         if not isinstance(call_node, nodes.Call):
             self.fail("expected call", node.lineno)
+        if any(_same_identifier(k.key, "caller") for k in call_node.kwargs):
+            self.fail("a call block passes 'caller' itself", node.lineno)
         node.call = call_node
         node.body = self.parse_statements(("name:endcall",), drop_needle=True)
         return node
